@@ -92,6 +92,9 @@ TABLE = [
     (AD, "StatThresholdAnomaliser", "stat_lower", "<= stat_upper", lambda: [Cond.cmp(">", sym("stat_lower"), sym("stat_upper"))]),
 ]
 
+#: parameters documented as "float or None" (None selects tuning): None is inside their domain
+NULLABLE = {"penalty_scale", "threshold_scale"}
+
 # documented minimum number of samples: class -> (normal form builder, text)
 MIN_LENGTH = {
     "PELT": (lambda: 2 * sym("min_segment_length"), "2 * min_segment_length"),
@@ -190,6 +193,17 @@ def check_constructor(ctx, pkg, name, cls):
         for p, c in others:
             if hits:
                 ctx.violation(rule, key + "|extra", raise_loc(p, loc), f"an additional guard on '{param}' rejects values inside the documented domain '{doc}' (or accepts values outside it)", found=repr(c), expected=" or ".join(repr(w) for w in want))
+    # None: a parameter whose documented domain is numeric (not "or None") must not be accepted as None - a dropped
+    # None-guard would let it through to fit/predict
+    for _, _, param, doc, _b in rows:
+        if param in NULLABLE or param in ("stat_lower", "stat_upper"):
+            continue
+        exn, pn = ctor_paths(ctx, cls, {param: lambda ex: NONE})
+        outcomes = sorted({(q.outcome, q.exc.exc_name if q.exc else "") for q in pn})
+        # the property lists numeric violations of the domains; for None it is only required that the constructor does
+        # not ACCEPT it (a TypeError from a bare comparison is tolerated, silently storing None is not)
+        okn = bool(pn) and all(q.outcome == "raise" for q in pn)
+        ctx.check(okn, rule, f"{name}|{param}|None", loc, f"{param}=None (outside the documented domain '{doc}') is never accepted by the constructor", found=outcomes[:4], expected="an exception on every path")
     # special rows: scorer requirements
     if name in ("CAPA", "MVCAPA"):
         ex2, p2 = ctor_paths(ctx, cls, {"point_saving": lambda ex: abstract_scorer(ex, ctx.P, "skchange.anomaly_scores.base.BaseSaving", "point_saving", min_size=NF.const(2))})
